@@ -12,6 +12,8 @@ import SkNet.Lemmas.ModularityLoop
 import SkNet.Lemmas.ModularityRefine
 import SkNet.Lemmas.TerminateLouvain
 import SkNet.Lemmas.ModularityFit
+import SkNet.Lemmas.ModularityLeiden
+import SkNet.Lemmas.ModularityPre
 
 namespace SkNet.Terminate
 open SkNet SkNet.Modularity Finset
@@ -351,15 +353,13 @@ theorem refineLoop_terminates (g : Graph Rat) (hg : GraphOK g) (res : Rat) (K : 
         omega
     · simp
 
+/-- the loop without the pass cap (`refineLoop`, the reference loop of C06) ends within `K^n + 1` passes: the cap
+    `n + 1` of the compiled kernel (`refineCapped`) is not what ends the loop in exact arithmetic within that budget -/
 theorem refineCore_terminates (g : Graph Rat) (hg : GraphOK g) (res : Rat) (K : Nat) (labels : List Nat)
     (st : RSt Rat) (hinv : RInv g K labels st) (rands : List Nat) (fuel : Nat) (hf : K ^ g.n + 1 ≤ fuel) :
-    refineCore g res labels fuel st rands ≠ none := by
-  unfold refineCore
-  have := refineLoop_terminates g hg res K labels fuel st rands [] hinv List.nodup_nil
+    refineLoop g res labels fuel st rands ≠ none :=
+  refineLoop_terminates g hg res K labels fuel st rands [] hinv List.nodup_nil
     (by intro l hl; simp at hl) (by intro l hl; simp at hl) (by simpa using hf)
-  cases hc : refineLoop g res labels fuel st rands with
-  | none => exact absurd hc this
-  | some r => simp
 
 /-- the start of `Leiden._optimize_refine`: singletons, the node weights as cluster weights, zero scratch -/
 theorem rinv_singletons (lv : Level) (hlv : LevelOK lv) (labels : List Nat) :
@@ -377,10 +377,88 @@ theorem rinv_singletons (lv : Level) (hlv : LevelOK lv) (labels : List Nat) :
     exact h
   rw [this]
 
-/-- **`Leiden._optimize_refine` terminates** (exact arithmetic), whatever `rand()` returns -/
+/-- **`Leiden._optimize_refine` terminates** (exact arithmetic, loop without the pass cap, from the start state of
+    the wrapper), whatever `rand()` returns -/
 theorem leidenRefine_terminates (lv : Level) (hlv : LevelOK lv) (res : Rat) (labels : List Nat) (rands : List Nat)
-    (fuel : Nat) (hf : lv.n ^ lv.n + 1 ≤ fuel) : leidenRefine lv res fuel labels rands ≠ none := by
-  unfold leidenRefine
-  exact refineCore_terminates lv.graph hlv.graphOK res lv.n labels _ (rinv_singletons lv hlv labels) rands fuel hf
+    (fuel : Nat) (hf : lv.n ^ lv.n + 1 ≤ fuel) :
+    refineLoop lv.graph res labels fuel
+      { refined := arange lv.n, outCl := lv.outW, inCl := lv.inW, cw := tab lv.n fun _ => 0 } rands ≠ none :=
+  refineCore_terminates lv.graph hlv.graphOK res lv.n labels _ (rinv_singletons lv hlv labels) rands fuel hf
+
+/-! ### the outer loop of `Leiden.fit` with its progress condition (/repo b2c73765) -/
+
+theorem nLabels_uniqueInverse_le_length (l : List Nat) : nLabels (uniqueInverse l) ≤ l.length := by
+  let D := l.foldl (fun s x => setInsert x s) []
+  have hD : D.Pairwise (· < ·) := distinct_sorted l [] List.Pairwise.nil
+  have hmem : ∀ y, y ∈ D ↔ y ∈ l := by
+    intro y
+    have := distinct_fold l [] y
+    simpa using this
+  have hnd : D.Nodup := hD.imp (fun h => Nat.ne_of_lt h)
+  have hDlen : D.length ≤ l.length :=
+    (List.subperm_of_subset hnd (fun y hy => (hmem y).mp hy)).length_le
+  have hrank : ∀ r ∈ uniqueInverse l, r < D.length := by
+    intro r hr
+    simp only [uniqueInverse, List.mem_map] at hr
+    obtain ⟨y, hy, rfl⟩ := hr
+    apply List.length_filter_lt_length_iff_exists.mpr
+    exact ⟨y, (hmem y).mpr hy, by simp⟩
+  have := nLabels_le (uniqueInverse l) D.length hrank
+  omega
+
+/-- **The outer loop of `Leiden.fit` terminates** — for every tolerance, whatever the increase reported by the
+    kernel is (so also under float32 noise: the argument does not look at it): since /repo b2c73765 a round that
+    continues has merged at least one node (`ar.2.n ≠ lv.n`), and the aggregate of `n` refined labels never has more
+    than `n` nodes; both kernels return by their pass caps.  `n + 1` rounds suffice. -/
+theorem leidenLoop_terminates (res tolOpt tolAgg : Rat) (nAgg : Int) :
+    ∀ (fuel count : Nat) (lv : Level) (labels memb : List Nat) (incs : List Rat) (rands : List (List Nat)),
+      LevelOK lv → lv.n + 1 ≤ fuel →
+      leidenLoop res tolOpt tolAgg nAgg fuel count lv labels memb incs rands ≠ none := by
+  intro fuel
+  induction fuel with
+  | zero => intro count lv labels memb incs rands _ hf; omega
+  | succ f ih =>
+    intro count lv labels memb incs rands hlv hf
+    simp only [leidenLoop]
+    cases hopt : leidenOptimize lv res tolOpt labels with
+    | none => simp [leidenOptimize] at hopt
+    | some r =>
+      obtain ⟨labels1, inc⟩ := r
+      simp only
+      cases href : leidenRefine lv res 0 (uniqueInverse labels1) (rands.headD []) with
+      | none => simp [leidenRefine, refineCore] at href
+      | some rr =>
+        obtain ⟨refined0, rest⟩ := rr
+        simp only
+        split
+        · simp
+        · rename_i hstop
+          simp only [Bool.or_eq_true, beq_iff_eq, decide_eq_true_eq, not_or, aggregateRefine] at hstop
+          obtain ⟨⟨⟨-, hne⟩, -⟩, -⟩ := hstop
+          have hinv := leiden_refine lv hlv res 0 (uniqueInverse labels1) (rands.headD []) refined0 rest href
+          have hlen : (uniqueInverse refined0).length = lv.n := hinv.len
+          have hle : (aggregate (uniqueInverse refined0) lv).n ≤ lv.n := by
+            show nLabels (uniqueInverse refined0) ≤ lv.n
+            have := nLabels_uniqueInverse_le_length refined0
+            rw [uniqueInverse_length] at hlen
+            omega
+          have hlt : (aggregate (uniqueInverse refined0) lv).n < lv.n := by omega
+          exact ih _ _ _ _ _ _ (aggregate_levelOK _ lv hlv hlen) (by simp only [aggregateRefine]; omega)
+
+/-- **`Leiden.fit` terminates**: once the input is accepted, `n + 1` aggregation rounds are never exhausted, for every
+    tolerance and every sequence of `rand()` values. -/
+theorem leidenFit_terminates (kind : Kind) (res tolOpt tolAgg : Rat) (nAgg : Int) (nRow nCol nnz : Nat)
+    (B : Nat → Nat → Rat) (fb : Bool) (rands : List (List Nat)) (lv : Level)
+    (hpre : preProcess kind nRow nCol nnz B fb = .ok lv) (outerFuel : Nat) (hf : lv.n + 1 ≤ outerFuel) :
+    leidenFit kind res tolOpt tolAgg nAgg nRow nCol nnz B fb outerFuel rands ≠ .ok none := by
+  obtain ⟨w, _, hlv⟩ := preProcess_ok kind nRow nCol nnz B fb lv hpre
+  have hok : LevelOK lv := by rw [hlv]; exact symLevel_levelOK _ _ _ _
+  unfold leidenFit
+  rw [hpre]
+  simp only
+  intro h
+  have h' : leidenLoop res tolOpt tolAgg nAgg outerFuel 0 lv (arange lv.n) (arange lv.n) [] rands = none := by
+    injection h
+  exact leidenLoop_terminates res tolOpt tolAgg nAgg outerFuel 0 lv (arange lv.n) (arange lv.n) [] rands hok hf h'
 
 end SkNet.Terminate
